@@ -22,6 +22,17 @@ var replayMu sync.Mutex
 
 // writeOverlay writes the overlay JSON for `go test` and returns its path.
 func writeOverlay(files []harnessFile, pkgRel string, harnessNames []string) string {
+	var selfNames []string
+	var hn []string
+	for _, n := range harnessNames {
+		if strings.HasPrefix(n, "VerifSelftest_") {
+			selfNames = append(selfNames, n)
+		} else {
+			hn = append(hn, n)
+		}
+	}
+	harnessNames = hn
+	sort.Strings(selfNames)
 	work := filepath.Join(verifDir, ".work")
 	os.MkdirAll(work, 0o755)
 	repl := map[string]string{}
@@ -39,6 +50,12 @@ func writeOverlay(files []harnessFile, pkgRel string, harnessNames []string) str
 	}
 	sb.WriteString("\t}\n\tfn := fns[name]\n\tif fn == nil {\n\t\tt.Fatalf(\"unknown harness %s\", name)\n\t}\n")
 	sb.WriteString("\toutcome, detail := zzverif.Run(fn)\n\tfmt.Printf(\"VERIF-OUTCOME %s %s\\n\", outcome, detail)\n}\n")
+	// native self-tests of harness-side models (contract cuts)
+	sb.WriteString("\nfunc TestVerifSelf(t *testing.T) {\n\tfor name, fn := range map[string]func() string{\n")
+	for _, n := range selfNames {
+		fmt.Fprintf(&sb, "\t\t%q: %s,\n", n, n)
+	}
+	sb.WriteString("\t} {\n\t\tif e := fn(); e != \"\" {\n\t\t\tt.Errorf(\"%s: %s\", name, e)\n\t\t}\n\t}\n}\n")
 	drv := filepath.Join(work, "driver_"+strings.ReplaceAll(pkgRel, "/", "_")+"_test.go")
 	os.WriteFile(drv, []byte(sb.String()), 0o644)
 	repl[filepath.Join(repoDir, pkgRel, "zz_verif_replay_test.go")] = drv
@@ -160,4 +177,53 @@ func nativeReplayFile(path string) (string, string) {
 	}
 	abs, _ := filepath.Abs(path)
 	return runNative(files, pkgRel, names, abs)
+}
+
+// harnessNamesIn lists the Verif* functions declared in the harness files of a package.
+func harnessNamesIn(files []harnessFile, pkgRel string) []string {
+	var names []string
+	for _, f := range files {
+		if f.pkgRel != pkgRel {
+			continue
+		}
+		src, _ := os.ReadFile(f.real)
+		for _, l := range strings.Split(string(src), "\n") {
+			if strings.HasPrefix(l, "func Verif") {
+				n := strings.TrimPrefix(l, "func ")
+				n = n[:strings.Index(n, "(")]
+				names = append(names, n)
+			}
+		}
+	}
+	return names
+}
+
+// selftest runs the native self-tests of every harness package that has some.
+func selftest() int {
+	files := findHarnessFiles()
+	pkgs := map[string]bool{}
+	for _, f := range files {
+		src, _ := os.ReadFile(f.real)
+		if strings.Contains(string(src), "func VerifSelftest_") {
+			pkgs[f.pkgRel] = true
+		}
+	}
+	rc := 0
+	for p := range pkgs {
+		ov := writeOverlay(files, p, harnessNamesIn(files, p))
+		cmd := exec.Command("go", "test", "-v", "-vet=off", "-count=1", "-timeout", "600s", "-overlay", ov, "-run", "^TestVerifSelf$", "./"+p)
+		cmd.Dir = repoDir
+		cmd.Env = append(os.Environ(), "GOFLAGS=-mod=mod", "GOPROXY=off", "GOSUMDB=off", "GOTOOLCHAIN=local")
+		out, err := cmd.CombinedOutput()
+		for _, l := range strings.Split(string(out), "\n") {
+			if strings.Contains(l, "VERIF-SELFTEST") || strings.Contains(l, "FAIL") || strings.Contains(l, "disagree") || strings.HasPrefix(l, "ok") {
+				fmt.Println(l)
+			}
+		}
+		if err != nil {
+			fmt.Printf("SELFTEST-FAILED %s: %v\n", p, err)
+			rc = 1
+		}
+	}
+	return rc
 }
